@@ -235,7 +235,7 @@ pub fn c08(run: &mut Run) -> Stats {
     st = st.merge(st_d);
     // (e) property-escape expressions: every sequence of words between \p{ and }, bare and inside a class
     let words: Vec<&str> = vec!["sc", "scx", "gc", "Script", "General_Category", "=", "Greek", "Latin", "Lu", "L", "ASCII", "Any", "RGI_Emoji", "x", "_", " "];
-    let wn = if thorough { 5 } else { 4 };
+    let wn = if thorough { 6 } else { 5 };
     let wtotal = total_strings(words.len() as u64, wn);
     let wchunks = (wtotal + chunk - 1) / chunk;
     let st_e = (0..wchunks)
